@@ -71,6 +71,7 @@ class Machine:
         self.res = resources
         self.resources = [None]   # resource id -> object
         self.rscale = {}          # resource id -> factor applied to container amounts
+        self.last_exc = {}        # process -> the exception it caught last
         self.rkinds = [None]
         self.pid_of = {}          # id(Process) -> pid
         self.fl = None            # float mode: {"delays": [...], "untils": [...]}; ops carry 1-based indices
@@ -381,7 +382,13 @@ class Machine:
                 ev.cancel()                     # (an eviction by the re-scan registers its Interruption itself)
             return None
         if k == "withexit":
-            self.events[o["a"]].__exit__(None, None, None)
+            # b = 1: the with-block is left by the exception the process caught last (an Interrupt, a failure) instead of
+            # normally -- the slot is released either way
+            e = self.last_exc.get(P) if o.get("b") == 1 else None
+            if e is not None:
+                self.events[o["a"]].__exit__(type(e), e, None)
+            else:
+                self.events[o["a"]].__exit__(None, None, None)
             self.reg(None, "relx")              # the Release event created inside __exit__ (not visible to the caller)
             return None
         if k == "put":
@@ -440,6 +447,7 @@ class Machine:
                     raise
                 except BaseException as e:
                     self.L("R", pid, False, self.enc(e))
+                    self.last_exc[pid] = e
                     if not o["c"]:
                         raise
         return ("ret", pid)
@@ -639,7 +647,7 @@ class Chooser:
             held = self.holds_any(P)
             nheld = sum(1 for r in range(1, len(m.resources)) if m.rkinds[r] in ("res", "prio", "preempt") and self.outstanding(P, r))
             if held and count >= g["max_ops"] - nheld:
-                return dict(Z, k="withexit", a=held)            # leave every with-block before ending
+                return dict(Z, k="withexit", a=held, b=rng.choice([0, 1]))     # leave every with-block before ending
         for _ in range(50):
             kinds = [k for k in table]
             k = rng.choices(kinds, [table[x] for x in kinds])[0]
@@ -696,7 +704,8 @@ class Chooser:
                 u = [x for x in self.mine(P, ("req",) if k == "withexit" else ("req", "put", "get")) if m.queued_or_done(x)]
                 if u:
                     a = rng.choice(u)
-                    return dict(Z, k=k, a=a, b=1 if (k == "cancel" and m.kinds[a] in ("put", "get") and rng.random() < 0.5) else 0)
+                    return dict(Z, k=k, a=a, b=1 if ((k == "cancel" and m.kinds[a] in ("put", "get") and rng.random() < 0.5)
+                                                      or (k == "withexit" and rng.random() < 0.5)) else 0)
             if k in ("put", "get") and room:
                 rs = [r for r in range(1, len(m.resources)) if m.rkinds[r] not in ("res", "prio", "preempt")]
                 if rs:
@@ -734,7 +743,7 @@ class Chooser:
                 if u:
                     return {"k": k, "a": rng.choice(u), "b": 0, "c": 0, "s": []}
         if not is_top and g.get("resources") and self.holds_any(P):
-            return dict(Z, k="withexit", a=self.holds_any(P))
+            return dict(Z, k="withexit", a=self.holds_any(P), b=rng.choice([0, 1]))
         return {"k": "return", "a": 0, "b": 0, "c": 0, "s": []} if not is_top else {"k": "run", "a": 0, "b": 0, "c": 0, "s": []}
 
 
